@@ -157,6 +157,13 @@ def main():
         vs = mod.replay(doc['case'])
         want = doc.get('sig')
         hit = [v for v in vs if want is None or v['sig'] == want]
+        if not hit and isinstance(doc['case'], dict) and isinstance(doc['case'].get('shard'), dict):
+            # the case alone does not show it: replay it with its history - the whole shard it belongs to, in shard order,
+            # in this fresh interpreter (defects that need earlier calls on the same objects: caches, registries)
+            r = mod.run_shard(doc['case']['shard'])
+            hit = [v for v in r.get('violations', []) if want is None or v['sig'] == want]
+            if hit:
+                print('(reproduced with its history: the shard of the case was replayed from its start)')
         if hit:
             print('VIOLATION property=%s replay=%s' % (pid, os.path.abspath(a.replay)))
             print('  signature: %s' % hit[0]['sig'])
